@@ -97,6 +97,9 @@ func parseVolDesc(img isoImage, sector int64, p *isoProblems) *volDesc {
 		p.add("descriptor-id", "sector %d: standard identifier %q", sector, d[1:6])
 	}
 	if v.Type == 255 {
+		if d[6] != 1 {
+			p.add("terminator-version", "sector %d: volume descriptor set terminator has version %d, ECMA-119 8.3.3 requires 1", sector, d[6])
+		}
 		return v
 	}
 	if d[6] != 1 {
